@@ -309,6 +309,7 @@ var (
 	vhBigIntType = reflect.TypeOf(big.Int{})
 	vhCellType   = reflect.TypeOf(boc.Cell{})
 	vhBitsType   = reflect.TypeOf(boc.BitString{})
+	vhMagicType  = reflect.TypeOf(Magic(0))
 )
 
 // vhAddressable returns an addressable copy of x (so that unexported fields can be read through unsafe).
@@ -341,6 +342,10 @@ func vhOpen(v reflect.Value) reflect.Value {
 //   - the unexported cache fields `hash` and `lazySourceBoc` of Message / Transaction are skipped: they are set by the
 //     decoder only and are not part of the TL-B value.
 //   - func values are skipped.
+//   - Magic fields are skipped: the Go value of a Magic carries no TL-B information - the encoder ignores it
+//     (Magic.EncodeTag writes the constant of the struct tag) and decoders either store that constant (generic
+//     ValidateTag) or leave the field 0 (the hand-written Transaction.UnmarshalTLB checks the 4 tag bits itself and
+//     never assigns tx.Magic). That the tag BITS are right is checked by C04.
 //
 // Everything else, including the SumType field of unions, unselected union members, Maybe.Value of absent optionals,
 // nil-ness of pointers and all unexported fields (hashmap keys/values, VmCellSlice, ...) is compared strictly.
@@ -378,6 +383,9 @@ func vhDiffV(a, b reflect.Value, path string, out *[]vhDelta) {
 	}
 	a, b = vhOpen(a), vhOpen(b)
 	t := a.Type()
+	if t == vhMagicType {
+		return
+	}
 	diff := func(format string, args ...any) {
 		*out = append(*out, vhDelta{Path: path, Type: t, Orig: a, Msg: fmt.Sprintf(format, args...)})
 	}
